@@ -8,6 +8,8 @@ func AllRules() []*Rule {
 	rs = append(rs, txnRules()...)
 	rs = append(rs, globRules()...)
 	rs = append(rs, drvRules()...)
+	rs = append(rs, cmpRules()...)
+	rs = append(rs, fmtRules()...)
 	return rs
 }
 
@@ -63,5 +65,19 @@ func init() {
 	Props["C20"] = PropInfo{
 		Explanation: "GLOB-1: no package-level variable of the four packages is written after initialisation (stores, element/field stores, map updates, appends, escapes of mutable references, followed through module callees); GLOB-2: no handle type is reachable from a package-level variable's type; GLOB-3: the only goroutine is the driver's producer, whose sharing is ordered by DRV-3/4/5; GLOB-4: per-handle state is written only through the method receiver.",
 		NotDecided:  "Races inside the standard library or mmap; a user sharing one handle; the exported mutable globals being changed by the user at run time.",
+	}
+}
+
+func init() {
+	Props["C11"] = PropInfo{
+		Explanation: "CMP-matrix evaluates compare() by path enumeration under each of the 25 storage-class pairs (a finite abstraction: the operands are touched only through type tests) and checks the 20 cross-class constants and the 5 delegations incl. operand order; CMP-3way checks the sign tables of the three-way helpers over Order(a,b), that operands are used only in comparisons, and the exact int/real scheme (integer compared as integer, guarded truncation, fraction decided by a float comparison); CMP-search extracts the outcome table of one generic loop iteration of Search and Equals over (record shorter, sign of compare, Desc) with the per-column collation; COLL checks the three registered collations against SQLite's definitions.",
+		NotDecided:  "NaN (never stored by SQLite), invalid UTF-8 under NOCASE, and that the relation is a total preorder for all concrete values (follows from the tables for the abstracted classes only).",
+	}
+}
+
+func init() {
+	Props["C14"] = PropInfo{
+		Explanation: "REC-table evaluates one generic iteration of parseRecord under each serial type 0..13 (path enumeration with the type assumed) and checks guard = bytes decoded = body advance = fileformat2 §2.1 and the sign-extension width; SIGN checks the 24/48-bit readers' shifts, mask and subtrahend; VARINT extracts the loop-body table of readVarint (7 bits for bytes 1..8, 8 bits for the 9th, precedence of the 9th-byte test, count, short input); FMT-spill compares the X/M/K formulas and the three-way choice with the spec after SSA removed naming (canonical expression trees); FMT-overflow checks the overflow page layout and that whole pages are appended.",
+		NotDecided:  "That multi-page chains concatenate correctly for concrete files, and the numeric value of each decode beyond width/sign structure.",
 	}
 }
